@@ -7,6 +7,7 @@
 -/
 import MofunModel.Proofs.CodeLemmas
 import MofunModel.Props.C09Code
+import MofunModel.Proofs.Code4Extend
 
 namespace Mofun.C11Code
 open Mofun Mofun.Generated Mofun.CodeLemmas
@@ -42,5 +43,64 @@ theorem extendTypes_masses_aligned (a b : Atoms) (h : a.typeElems.length = a.typ
   rw [extendTypes_eq] at hr
   cases hr
   simp [Atoms.extendTypes, h]
+
+/-! ### the prologue of `Atoms.extend` (fourth batch; repairs 5777e16, c5d98a8) -/
+
+open Mofun.Code4Extend
+
+/-- for ALL integers: the translated nested `plain_index(i, n)` is numpy's reading of an index, the model's `plainIdx`
+    (`none` = IndexError) -/
+theorem plainIndex_eq (i : Int) (n : Nat) : Generated.Code.plainIndex i n = (plainIdx n i).map Int.ofNat := by
+  unfold Generated.Code.plainIndex plainIdx Py.intMod?
+  by_cases h1 : -(n : Int) ≤ i
+  · by_cases h2 : i < (n : Int)
+    · have hn : ¬ ((n : Int) = 0) := by omega
+      have hn' : ¬ n = 0 := by omega
+      have hm : 0 ≤ i % (n : Int) := Int.emod_nonneg _ hn
+      simp [h1, h2, hn, hn', Int.fmod_eq_emod_of_nonneg, Int.toNat_of_nonneg hm]
+    · simp [h1, h2]
+  · simp [h1]
+
+/-- for ALL maps over integers: the translated dict comprehension that normalises `structure_index_map` (keys read in
+    `other`, values in `self`, a repeated normalised key keeps its first position and takes the last value) is the
+    model's `normMap`; an index out of bounds raises before anything is changed -/
+theorem extendIndexMap_eq (nSelf nOther : Nat) (map : List (Int × Int)) :
+    Generated.Code.extendIndexMap nSelf nOther map = liftMap (normMap nOther nSelf map) := by
+  unfold Generated.Code.extendIndexMap Py.dictCompM? normMap
+  simp only [bind, pure, Option.bind_eq_bind, Option.bind_some]
+  refine fold_lift nSelf nOther _ ?_ map (.ok [])
+  intro acc p
+  obtain ⟨k, v⟩ := p
+  cases acc with
+  | error e => simp [liftMap, normStep]
+  | ok m =>
+    simp only [liftMap, normStep, plainIndex_eq]
+    cases plainIdx nOther k <;> cases plainIdx nSelf v <;> simp [liftMap] <;> exact dictInsert_lift _ _ _
+/-- for ALL offsets sequences: the translated padding `tuple(offsets) + (0,) * (5 - len(offsets))` leaves the given
+    entries and reads every missing one as 0 (also when more than five are given) -/
+theorem extendPadOffsets_getD (l : List Nat) (k : Nat) : (Generated.Code.extendPadOffsets l).getD k 0 = l.getD k 0 := by
+  unfold Generated.Code.extendPadOffsets
+  by_cases h : k < l.length
+  · simp [List.getD_eq_getElem?_getD, List.getElem?_append_left h]
+  · have h' : l.length ≤ k := by omega
+    rw [List.getD_eq_getElem?_getD, List.getElem?_append_right h', ← List.getD_eq_getElem?_getD, listRepeat_zero]
+    simp [List.getD_eq_getElem?_getD, List.getElem?_eq_none h']
+
+theorem padOffsets_pad (l : List Nat) : padOffsets (Generated.Code.extendPadOffsets l) = padOffsets l := by
+  simp only [padOffsets, extendPadOffsets_getD]
+
+/-- … and the padded tuple has (at least) five entries, so `offsets[0] … offsets[4]` never raise -/
+theorem extendPadOffsets_length (l : List Nat) : (Generated.Code.extendPadOffsets l).length = max 5 l.length := by
+  unfold Generated.Code.extendPadOffsets Generated.Py.listRepeat
+  have e : ∀ c : Nat, ((List.replicate c [0]).flatten : List Nat).length = c := by
+    intro c; induction c with
+    | zero => rfl
+    | succ c ih => simp [List.replicate_succ]
+  rw [List.length_append, e]
+  omega
+
+example : Generated.Code.extendPadOffsets [3, 1, 4, 1] = [3, 1, 4, 1, 0] := by decide
+example : Generated.Code.extendIndexMap 4 3 [(-1, 0), (2, -4)] = some [(2, 0)] := by decide
+example : Generated.Code.extendIndexMap 4 3 [(3, 0)] = none := by decide
 
 end Mofun.C11Code
